@@ -73,8 +73,16 @@ def random_instance(rng, cls, small=False):
                 drop.append(e)
             elif g == "zero":
                 garbage[e] = 0
+    if cls == "kMinPathErrorCycles" and "elements_to_ignore" not in kw and rng.random() < 0.2:
+        # documented alternative to an explicit list: ignore the elements whose weight lies below the p-th percentile (the largest
+        # weight is never below it, so at least one weighted element stays)
+        kw["elements_to_ignore_percentile"] = rng.choice([10, 25, 50])
+    if cls in ("kLeastAbsErrorsCycles", "kMinPathErrorCycles") and rng.random() < 0.2:
+        kw["trusted_edges_for_safety_percentile"] = rng.choice([0, 25, 50, 90])
     if cls in ERR and rng.random() < 0.3:
         sc = {e: rng.choice([0, 0.5, 1, 0.25]) for e in rng.sample(elems, rng.randint(1, max(1, len(elems) // 2)))}
+        if "elements_to_ignore_percentile" in kw:
+            sc = {e: (f or 0.5) for e, f in sc.items()}      # keep at least one element that is neither ignored nor scaled by 0
         kw["error_scaling"] = [[gen.jl(e) if isinstance(e, tuple) else e, f] for e, f in sc.items()]
     # keep the instance inside the documented domain: at least one element that is neither ignored nor scaled by 0
     dead = set(map(str, kw.get("elements_to_ignore", []))) | {str(e) for e, f in kw.get("error_scaling", []) if f == 0}
